@@ -2,7 +2,7 @@
 import math
 import numpy as np
 from hypothesis import strategies as st
-from vlib import strat as S, oracles as O
+from vlib import strat as S, oracles as O, harness
 
 ID = "C16"
 EXHAUSTIVE = True
@@ -40,7 +40,7 @@ def exhaustive(ctx, tier):
         ctx.fail("table-size", "form factor table has %d entries, 94 expected" % len(keys))
     for el in keys:
         ctx.begin({"exhaustive-element": el})
-        exhaustive_one(ctx, el)
+        harness.guarded_call(ctx, exhaustive_one, ctx, el)
     missing = [s for s in SYMBOLS[:94] if s not in atomlib.formfactor]
     if missing:
         ctx.fail("missing-elements", "no table entry for %r" % missing)
@@ -112,6 +112,15 @@ def check(case, ctx):
         atom = structure.atom_entry(label="X1", atomtype=el, pos=[0.1, 0.2, 0.3], adp_type="Uiso", adp=0.01, occ=1.0, symmulti=1)
         structure.StructureFactor(np.array([1, 0, 0]), [5.0, 6.0, 7.0, 90.0, 90.0, 90.0], "P1", [atom], {el: [fp, fpp]})
         ctx.event("structure-factor-with-dispersion-first")
+    if case.get("sf_first") is None and case["el"] % 2 == 0:
+        # history: a call with a symbol the table does not hold (an ion from a CIF type loop, a lower-case or unknown
+        # symbol) came first; whether the library rejects it or not, it must not change what the table returns afterwards
+        for bad in (el + "2+", el + "1-", el.lower(), "XX"):
+            try:
+                structure.FormFactor(bad, 0.3)
+            except Exception:
+                pass
+        ctx.event("call-with-unknown-symbol-first")
     how = case.get("s_as", "float")
     if how == "grid":
         # the caller evaluates one (read-only) grid of s values for several elements
